@@ -15,6 +15,7 @@ C. apps.qchem - gbs_params relations, VibronicTransition == Doktorov operator (p
    permanent probabilities, utils.duschinsky defining relation, utils.marginals == diagonal of the reduced state.
 """
 import itertools
+import warnings
 import math
 
 import numpy as np
@@ -1115,6 +1116,39 @@ def sim_tasks(quick):
     return tasks
 
 
+def sample_shapes(res):
+    """qchem.vibronic.sample: one row per sample over 2N modes for EVERY zero pattern of the thermal squeezing vector t (N = 2, 3);
+    the sampler itself is owned (hafnian_sample_state answers zeros): only the routing and the shape are judged"""
+    import strawberryfields.backends.gaussianbackend.backend as gb
+    from strawberryfields.apps.qchem import vibronic
+
+    def fake(cov, samples, *a, **kw):
+        return np.zeros((samples, cov.shape[0] // 2), dtype=int)
+
+    for N in (2, 3):
+        U = np.eye(N)
+        for mask in itertools.product([0.0, 0.3], repeat=N):
+            res.n += 1
+            res.nt += 1
+            t = np.array(mask)
+            case = {"sample_shape": True, "N": N, "t": list(mask)}
+            sh = gb.hafnian_sample_state
+            gb.hafnian_sample_state = fake
+            try:
+                with warnings.catch_warnings():
+                    warnings.simplefilter("ignore")
+                    s = np.array(vibronic.sample(t, U, np.full(N, 0.1), U, np.full(N, 0.2), 3))
+            except Exception as e:  # noqa: BLE001
+                res.violation(f"C20|vibronic.sample|raises|{type(e).__name__}", f"vibronic.sample with t = {list(mask)} raised {e!r}", case)
+                continue
+            finally:
+                gb.hafnian_sample_state = sh
+            if s.shape != (3, 2 * N):
+                kind = "mixed-zero-pattern" if 0 < sum(1 for x in mask if x == 0) < N else "uniform"
+                res.violation(f"C20|vibronic.sample|shape|{kind}", f"vibronic.sample(t = {list(mask)}, ..., n_samples = 3) on {N} modes returned samples of shape {s.shape}, documented: 3 rows over 2N = {2 * N} modes", case)
+    return res
+
+
 def run(ctx):
     quick = ctx.tier == "quick"
     assert haf(np.ones((8, 8))) == 105 and haf(np.ones((6, 6))) == 15 and abs(perm(np.ones((3, 3))) - 6) < 1e-12
@@ -1136,6 +1170,7 @@ def run(ctx):
             ctx.close()
             ctx.cap_hit(f"time budget hit after {done} of {len(tasks)} work units")
             break
+    ctx.add(sample_shapes(Res()))
     exp_configs = n_configs(vt)
     if ctx.exhaustive and ctx.stats["A.configs"] != exp_configs:
         raise RuntimeError(f"enumerated {ctx.stats['A.configs']} VGBS configurations, declared {exp_configs}")
@@ -1175,6 +1210,9 @@ def run(ctx):
 def replay(case):
     res = Res()
     part = case.get("part")
+    if case.get("sample_shape"):
+        r = sample_shapes(Res())
+        return [(s_, w) for s_, w, c in r.viol if c == case]
     if part == "vgbs":
         g = case.get("group")
         vgbs_config(res, case, groups=None if g not in GROUPS else (g,))
